@@ -122,6 +122,28 @@ Proof.
 Qed.
 Print Assumptions C05_refuted_on_box.
 
+(* "specifications given at compile time and at run time agree" is false: a[1:1, ...] on a 1-d array (a valid
+   Python index, empty result): the typed-tuple path reads shape[dim] for the trailing ellipsis and throws,
+   the run-time list path returns Python's answer *)
+Theorem C05_refuted_encodings_agree :
+  let shape := [1] in let sls := [SRange (Some 1) (Some 1) None; SEll] in
+  multi_dom shape sls = true
+  /\ shape_slice_variadic shape sls = None
+  /\ shape_slice_dynamic shape sls = Some (map Len (py_shape shape sls)).
+Proof. vm_compute. repeat split; reflexivity. Qed.
+Print Assumptions C05_refuted_encodings_agree.
+
+(* apart from that read the two paths are the same arithmetic: where the typed-tuple path does not throw, both are Python on multi_dom *)
+Theorem C05_encodings_agree_on_domain : forall shape sls,
+  multi_dom shape sls = true -> var_oob shape sls = false ->
+  shape_slice_variadic shape sls = Some (map Len (py_shape shape sls))
+  /\ shape_slice_dynamic shape sls = Some (map Len (py_shape shape sls)).
+Proof.
+  intros shape sls H Hv. unfold shape_slice_variadic, shape_slice_dynamic. rewrite Hv.
+  destruct (multi_axis shape sls H) as [-> _]. split; reflexivity.
+Qed.
+Print Assumptions C05_encodings_agree_on_domain.
+
 (* ---------- non-vacuity ---------- *)
 Example C05_nonvacuous_axis :
   axis_dom 5 (Some 1) (Some 4) (Some 2) = true /\ slice_len 5 (Some 1) (Some 4) (Some 2) = Len 2
